@@ -343,7 +343,9 @@ class Lookup(Harness):
         r = guarded(M.ssh_audit.algorithm_lookup, out, ('ssh-ed25519,' + name) if self.second else name)
         if isinstance(r, Exc):
             return {'exc': r}
-        return {'ret': r, 'parsed': OL.parse_alg_lines(out.buffer), 'unknown_section': any(OL._starts(ln, '# unknown algorithms') for ln in out.buffer)}
+        # (the request's other name is left out of the observation: --lookup prints the names of a category in set order, which differs between processes)
+        parsed = [x for x in OL.parse_alg_lines(out.buffer) if not (self.second and bool(x[1] == 'ssh-ed25519'))]
+        return {'ret': r, 'parsed': parsed, 'unknown_section': any(OL._starts(ln, '# unknown algorithms') for ln in out.buffer)}
 
     def check(self, inp, obs):
         if 'exc' in obs:
